@@ -9,6 +9,7 @@ A challenge is 10 tokens: major minor socc uuid revocation hash pinned default c
 -/
 import Driver.Proto
 import SpsdkVerif.Model.Dat
+import SpsdkVerif.Model.DatV2
 import SpsdkVerif.Crypto.Exec
 open SpsdkVerif Driver
 open SpsdkVerif.Dat SpsdkVerif.Misc
@@ -79,7 +80,30 @@ def selStr : ClsSel → String | .cls c => clsStr c | .eleV2 => "eleV2"
 
 def unitStr : Unit → String := fun _ => ""
 
+/-- EdgeLock v2 certificate: 8 tokens `length sigoff permissions permdata fuse uuid key0 sig0` -/
+def parseCertToks : List String → Option DatV2.Cert
+  | [l, so, pm, pd, fu, uu, k0, sg] =>
+    match parseNat l, parseNat so, parseNat pm, parseHex pd, parseNat fu, parseHex uu, parseHex k0, parseHex sg with
+    | some l, some so, some pm, some pd, some fu, some uu, some k0, some sg =>
+      some { length := l, sigOffset := so, permissions := pm, permData := pd, fuseVersion := fu, uuid := uu, key0 := k0, sig0 := sg }
+    | _, _, _, _, _, _, _, _ => none
+  | _ => none
+
+def certStr (c : DatV2.Cert) : String :=
+  " ".intercalate [toString c.length, toString c.sigOffset, toString c.permissions, hx c.permData, toString c.fuseVersion, hx c.uuid,
+    hx c.key0, hx c.sig0]
+
+def optCertStr : Option DatV2.Cert → String
+  | some c => certStr c
+  | none => "second-key-set"
+
 def step : List String → String
+  | "v2_export" :: t => match parseCertToks t with | some c => resLine hx (DatV2.exportCert c) | none => "bad-op"
+  | "v2_signed" :: t => match parseCertToks t with | some c => resLine hx (DatV2.signedData c) | none => "bad-op"
+  | "v2_wrap" :: t => match parseCertToks t with | some c => resLine certStr (DatV2.wrap c) | none => "bad-op"
+  | ["v2_parse", h] => match parseHex h with | some b => resLine optCertStr (DatV2.parseV2 DatV2.keyWalk b) | none => "bad-op"
+  | ["v2_create", socc, socu, fuse, uu, k0] => match parseNat socc, parseNat socu, parseNat fuse, parseHex uu, parseHex k0 with
+    | some a, some b, some f, some u, some k => resLine certStr (DatV2.create a b f u k) | _, _, _, _, _ => "bad-op"
   | "export" :: t => match parseDcToks t with | some d => resLine hx (exportDC d) | none => "bad-op"
   | "tbs" :: t => match parseDcToks t with | some d => resLine hx (dataToSign d) | none => "bad-op"
   | ["parse", cls, h] => match parseHex h with
